@@ -27,6 +27,7 @@ import (
 	"bytes"
 	"encoding/binary"
 	"fmt"
+	"os"
 	"sort"
 
 	"github.com/New-JAMneration/JAM-Protocol/internal/blockchain"
@@ -36,6 +37,7 @@ import (
 	m "github.com/New-JAMneration/JAM-Protocol/internal/utilities/merklization"
 	vrf "github.com/New-JAMneration/JAM-Protocol/pkg/Rust-VRF/vrf-func-ffi/src"
 	"golang.org/x/crypto/blake2b"
+	"pgregory.net/rapid"
 )
 
 // tiny parameters; checked against the package variables by cbCheckParams.
@@ -791,6 +793,7 @@ type cbGenesis struct {
 	Lambda   []int  `json:"lambda"`   // 6 identities
 	Offender int    `json:"offender"` // -1, or an identity whose Ed25519 key is in psi_o
 	Ancestry bool   `json:"ancestry"` // hand the genesis item to SetState as ancestry
+	Prefill  []int  `json:"prefill"`  // gamma_a at genesis: ticket combos (ring position*N + attempt) minted under eta_2
 }
 
 func cbValSet(ix []int) (types.ValidatorsData, error) {
@@ -842,6 +845,25 @@ func cbGenesisState(g cbGenesis) (types.Header, types.StateKeyVals, error) {
 		st.Gamma.GammaS.Keys = append(st.Gamma.GammaS.Keys, types.BandersnatchPublic(k))
 	}
 	st.Gamma.GammaA = types.TicketsAccumulator{}
+	{
+		var pre []cbTicket
+		seen := map[[32]byte]bool{}
+		for _, c := range g.Prefill {
+			c = ((c % (cbV * cbN)) + cbV*cbN) % (cbV * cbN)
+			id := cbTicketID([32]byte(st.Gamma.GammaK[c/cbN].Bandersnatch), [32]byte(st.Eta[2]), byte(c%cbN))
+			if !seen[id] {
+				seen[id] = true
+				pre = append(pre, cbTicket{ID: id, Attempt: byte(c % cbN)})
+			}
+		}
+		cbSortTickets(pre)
+		if len(pre) > cbE {
+			pre = pre[:cbE]
+		}
+		for _, t := range pre {
+			st.Gamma.GammaA = append(st.Gamma.GammaA, types.TicketBody{ID: types.TicketID(t.ID), Attempt: types.TicketAttempt(t.Attempt)})
+		}
+	}
 	if g.Offender >= 0 && g.Offender < cbPool {
 		st.Psi.Offenders = []types.Ed25519Public{cbIdents[g.Offender].Val.Ed25519}
 	}
@@ -994,3 +1016,78 @@ func cbRefRoot(kvs types.StateKeyVals) [32]byte {
 	}
 	return rec(list, 0)
 }
+
+// ---- shared by the C26 and C23 harnesses ----------------------------------------------
+
+func cbGenGenesis(rt *rapid.T) cbGenesis {
+	g := cbGenesis{Seed: rapid.Uint32Range(0, 1<<20).Draw(rt, "seed")}
+	g.Tau = uint32(rapid.OneOf(rapid.Just(0), rapid.IntRange(0, 11), rapid.IntRange(12, 40)).Draw(rt, "tau"))
+	perm := rapid.Permutation([]int{0, 1, 2, 3, 4, 5, 6, 7, 8, 9, 10, 11}).Draw(rt, "idents")
+	mode := rapid.IntRange(0, 3).Draw(rt, "sets")
+	switch mode {
+	case 0: // one validator set everywhere
+		g.Kappa, g.GammaK, g.Iota, g.Lambda = perm[:6], perm[:6], perm[:6], perm[:6]
+	case 1: // a different set queued
+		g.Kappa, g.GammaK, g.Iota, g.Lambda = perm[:6], perm[:6], perm[6:], perm[:6]
+	case 2: // overlapping sets
+		g.Kappa, g.GammaK, g.Iota, g.Lambda = perm[:6], perm[3:9], perm[6:], perm[2:8]
+	default: // same members, rotated positions
+		g.Kappa, g.GammaK, g.Iota, g.Lambda = perm[:6], append(append([]int{}, perm[2:6]...), perm[:2]...), perm[:6], perm[:6]
+	}
+	g.Offender = -1
+	if rapid.IntRange(0, 4).Draw(rt, "with_offender") == 0 {
+		g.Offender = g.Iota[rapid.IntRange(0, 5).Draw(rt, "offender")]
+	}
+	g.Ancestry = rapid.IntRange(0, 3).Draw(rt, "ancestry") == 0
+	switch rapid.IntRange(0, 3).Draw(rt, "prefill") {
+	case 0:
+		g.Prefill = rapid.Permutation(cbSeq(cbV * cbN)).Draw(rt, "prefill_all")[:rapid.IntRange(12, 18).Draw(rt, "prefill_n")]
+	case 1:
+		g.Prefill = rapid.SliceOfN(rapid.IntRange(0, cbV*cbN-1), 1, 11).Draw(rt, "prefill_some")
+	}
+	return g
+}
+
+func cbSeq(n int) []int {
+	o := make([]int, n)
+	for i := range o {
+		o[i] = i
+	}
+	return o
+}
+
+func cbGenTickets(rt *rapid.T, max int) []cbTicketSpec {
+	n := rapid.IntRange(0, max).Draw(rt, "ntickets")
+	var out []cbTicketSpec
+	for i := 0; i < n; i++ {
+		out = append(out, cbTicketSpec{Pos: rapid.IntRange(0, cbV-1).Draw(rt, "pos"), Attempt: rapid.IntRange(0, cbN-1).Draw(rt, "att")})
+	}
+	return out
+}
+
+func cbCloneBlock(b types.Block) types.Block {
+	o := b
+	if b.Header.EpochMark != nil {
+		em := *b.Header.EpochMark
+		em.Validators = append([]types.EpochMarkValidatorKeys(nil), em.Validators...)
+		o.Header.EpochMark = &em
+	}
+	if b.Header.TicketsMark != nil {
+		tm := append(types.TicketsMark(nil), (*b.Header.TicketsMark)...)
+		o.Header.TicketsMark = &tm
+	}
+	o.Header.OffendersMark = append(types.OffendersMark{}, b.Header.OffendersMark...)
+	o.Extrinsic.Tickets = append(types.TicketsExtrinsic(nil), b.Extrinsic.Tickets...)
+	o.Extrinsic.Preimages = nil
+	for _, p := range b.Extrinsic.Preimages {
+		o.Extrinsic.Preimages = append(o.Extrinsic.Preimages, types.Preimage{Requester: p.Requester, Blob: append(types.ByteSequence(nil), p.Blob...)})
+	}
+	return o
+}
+
+func cbImport(n *cbNode, b types.Block) (root types.StateRoot, err error) {
+	return n.svc.ImportBlock(cbCloneBlock(b))
+}
+
+var cbDebug = os.Getenv("VERIF_CB_DEBUG") != ""
+
